@@ -444,7 +444,7 @@ func init() {
 		Race:  true,
 		Plan: func(tier string, seed int64) []run.Job {
 			var jobs []run.Job
-			nj, reps, iters := 6, 2, 10
+			nj, reps, iters := 8, 3, 10
 			if tier == "thorough" {
 				nj, reps, iters = 16, 6, 16
 			}
